@@ -2,7 +2,7 @@ INIT MCInit
 NEXT MCNext
 CONSTANTS
   Impl = "fixed"
-  MaxLen = 1
+  MaxLen = 2
   Family = "small"
 INVARIANTS Safe
 CHECK_DEADLOCK FALSE
